@@ -110,6 +110,9 @@ impl SixelParser {
                     self.parsed_numbers.push(0);
                 } else {
                     if let Some(color) = self.parsed_numbers.first() {
+                        if *color >= MAX_SIXEL_COLORS {
+                            return Err(ParserError::InvalidColorInSixelSequence.into());
+                        }
                         self.current_sixel_color = *color as u32;
                     }
                     if self.parsed_numbers.len() > 1 {
